@@ -9,8 +9,9 @@ from __future__ import annotations
 import asyncio
 import random
 import struct
+import warnings
 
-from bumble import hci
+from bumble import hci, hfp
 from bumble.controller import Controller
 from bumble.core import PhysicalTransport
 from bumble.device import AdvertisingEventProperties, AdvertisingParameters, Device
@@ -19,6 +20,8 @@ from bumble.host import Host
 from bumble.link import LocalLink
 
 from lib import rig
+
+warnings.filterwarnings("ignore", category=FutureWarning, module=r"bumble\..*")  # utils.experimental on the (e)SCO paths
 
 TEST_CID = 0x3A  # a fixed channel nobody else uses (LE and BR/EDR)
 ADV_INTERVAL_MS = 100.0
@@ -37,7 +40,8 @@ EXT_COMMANDS = {
     hci.HCI_LE_EXTENDED_CREATE_CONNECTION_COMMAND,
 }
 
-FIELDS = dict(e="", d=0, tr="", a=0, ak="", fl="", own="", h=0, role="", n=0, fd=0, ok=0, rt="", what="", src=0, m="")
+FIELDS = dict(e="", d=0, tr="", ctr="", a=0, ak="", fl="", own="", h=0, role="", n=0, fd=0, ok=0, rt="", what="", src=0, m="")
+ESCO = hfp.ESCO_PARAMETERS[hfp.DefaultCodecParameters.ESCO_CVSD_S1].asdict()
 
 
 def pub_addr(i, same_bytes=False):
@@ -49,8 +53,28 @@ def rnd_addr(i, same_bytes=False):
     return Address(f"F{i}:F{i}:F{i}:F{i}:F{i}:0{i}" if same_bytes else f"C{i}:C{i}:C{i}:C{i}:C{i}:1{i}", Address.RANDOM_DEVICE_ADDRESS)
 
 
+def set_addr(i):
+    """the random address of device i's extended advertising set when it has one of its own (kind "set")"""
+    return Address(f"D{i}:D{i}:D{i}:D{i}:D{i}:2{i}", Address.RANDOM_DEVICE_ADDRESS)
+
+
+class BandDelayLine(rig.DelayLine):
+    """order-preserving delay drawn from [min_delay, max_delay] (rig.DelayLine draws from [0, max_delay])"""
+
+    def __init__(self, deliver, rng, min_delay, max_delay):
+        super().__init__(deliver, rng, max_delay)
+        self.min_delay = min_delay
+
+    def push(self, item):
+        loop = asyncio.get_running_loop()
+        t = max(self.last, loop.time() + self.rng.uniform(self.min_delay, self.max_delay))
+        self.last = t
+        self.fifo.append(item)
+        loop.call_at(t, self._fire)
+
+
 class Stack:
-    def __init__(self, world, i, ext, classic, rng, hci_delay, link_delay):
+    def __init__(self, world, i, ext, classic, rng, hci_delay, link_delay, slow=None):
         self.i = i
         self.ext = ext
         c = self.controller = Controller(f"C{i}", link=world.link, public_address=pub_addr(i))
@@ -61,6 +85,9 @@ class Stack:
             c.lmp_features = hci.LmpFeatureMask(c.lmp_features) & ~hci.LmpFeatureMask.BR_EDR_NOT_SUPPORTED
         self.host = Host()
         self.tap = rig.HciTap(self.host, c, rng=rng, max_delay=hci_delay, record=lambda dirn, pkt: world.on_hci(i, dirn, pkt))
+        if slow:  # a host that lags behind its controller by at least slow[0] in both directions
+            self.tap.line_h2c = BandDelayLine(self.tap._to_controller, rng, slow[0], slow[1])
+            self.tap.line_c2h = BandDelayLine(self.tap._to_host, rng, slow[0], slow[1])
         self.device = Device(name=f"D{i}", address=rnd_addr(i, world.same_bytes), host=self.host)
         self.device.classic_enabled = bool(classic)
         # one order-preserving delay line for everything the link hands to this controller
@@ -107,7 +134,7 @@ class OrderedControllers:
 
 
 class World:
-    def __init__(self, n, ext=(), classic=False, seed=0, hci_delay=0.0, link_delay=0.0, same_bytes=False, patch=None):
+    def __init__(self, n, ext=(), classic=False, seed=0, hci_delay=0.0, link_delay=0.0, same_bytes=False, patch=None, slow=None):
         self.n = n
         self.rng = random.Random(seed)
         self.same_bytes = same_bytes
@@ -120,7 +147,9 @@ class World:
         self.next_serial = 1
         self.tasks = []
         self.link.controllers = OrderedControllers()
-        self.stacks = {i: Stack(self, i, i in ext, classic, self.rng, hci_delay, link_delay) for i in range(1, n + 1)}
+        slow = {int(k): tuple(v) for k, v in (slow or {}).items()}
+        self.slowest = max([hci_delay] + [v[1] for v in slow.values()])
+        self.stacks = {i: Stack(self, i, i in ext, classic, self.rng, hci_delay, link_delay, slow.get(i)) for i in range(1, n + 1)}
         self.rng.shuffle(self.link.controllers.items)
         self.adv_payload = {}
         for i in self.stacks:
@@ -134,13 +163,13 @@ class World:
         return self.stacks[i].device
 
     def addr(self, i, kind):
-        return pub_addr(i) if kind == "pub" else rnd_addr(i, self.same_bytes)
+        return pub_addr(i) if kind == "pub" else set_addr(i) if kind == "set" else rnd_addr(i, self.same_bytes)
 
     def who(self, address):
         """(device number, kind) of an address, (0, "pub") if nobody owns it"""
         if isinstance(address, Address):
             for i in self.stacks:
-                for kind in ("pub", "rnd"):
+                for kind in ("pub", "rnd", "set"):
                     if self.addr(i, kind) == address:
                         return i, kind
         return 0, "pub"
@@ -189,6 +218,10 @@ class World:
             if p.status == 0 and p.link_type == hci.HCI_Connection_Complete_Event.LinkType.ACL:
                 a, ak = self.who(p.bd_addr)
                 self.log("t2_conn", d=i, h=p.connection_handle, role="", tr="br", a=a, ak=ak)
+        elif isinstance(p, hci.HCI_Synchronous_Connection_Complete_Event):
+            if p.status == 0:
+                a, ak = self.who(p.bd_addr)
+                self.log("t2_conn", d=i, h=p.connection_handle, role="", tr="sco", a=a, ak=ak)
         elif isinstance(p, hci.HCI_Disconnection_Complete_Event):
             if p.status == 0:
                 self.log("t2_disc", d=i, h=p.connection_handle)
@@ -237,7 +270,18 @@ class World:
                 what = "other"
             self.log("advert", d=i, a=a, ak=ak, what=what, src=src or a)
 
+        def on_sco_request(conn, link_type):
+            # the application accepts every (e)SCO link it is asked for
+            self.spawn(d.send_command(hci.HCI_Enhanced_Accept_Synchronous_Connection_Request_Command(bd_addr=conn.peer_address, **ESCO)), "sco_accept", i)
+
+        def on_sco_connection(sco):
+            a, ak = self.who(sco.acl_connection.peer_address)
+            self.log("conn_evt", d=i, h=sco.handle, role="", tr="sco", a=a, ak=ak)
+            sco.on("disconnection", lambda reason: self.log("disc_evt", d=i, h=sco.handle))
+
         d.on("connection", on_connection)
+        d.on("sco_request", on_sco_request)
+        d.on("sco_connection", on_sco_connection)
         d.on("advertisement", on_advertisement)
         d.l2cap_channel_manager.register_fixed_channel(TEST_CID, on_pdu)
 
@@ -247,8 +291,24 @@ class World:
             self.watch(i)
 
     # ------------------------------------------------------------------ operations
+    def spawn(self, coro, what, i):
+        async def run():
+            try:
+                await coro
+            except Exception as e:
+                self.errors.append((what, i, repr(e)))
+
+        t = asyncio.get_running_loop().create_task(run())
+        self.tasks.append(t)
+        return t
+
     def find(self, i, j, tr):
-        """the live Connection of device i whose peer is device j on that transport"""
+        """the live Connection (tr = "sco": ScoLink) of device i whose peer is device j on that transport"""
+        if tr == "sco":
+            for sco in self.dev(i).sco_links.values():
+                if self.who(sco.acl_connection.peer_address)[0] == j:
+                    return sco
+            return None
         want = PhysicalTransport.LE if tr == "le" else PhysicalTransport.BR_EDR
         for conn in self.dev(i).connections.values():
             if conn.transport == want and self.who(conn.peer_address)[0] == j:
@@ -266,6 +326,7 @@ class World:
                     advertising_event_properties=AdvertisingEventProperties(is_connectable=True, is_scannable=False, is_legacy=False),
                     primary_advertising_interval_min=ADV_INTERVAL_MS, primary_advertising_interval_max=ADV_INTERVAL_MS,
                     own_address_type=own),
+                random_address=set_addr(i) if kind == "set" else None,
                 advertising_data=ad)
         else:
             await st.device.start_advertising(own_address_type=own, advertising_data=ad, scan_response_data=sr,
@@ -274,18 +335,23 @@ class World:
     async def stop_adv(self, i):
         st = self.stacks[i]
         self.log("advstop_call", d=i)
+        s, st.adv_set = st.adv_set, None
         try:
-            if st.adv_set is not None:
-                s, st.adv_set = st.adv_set, None
+            if s is not None:
                 if s.enabled:
                     await s.stop()
-                await s.remove()
             else:
                 await st.device.stop_advertising()
         except Exception as e:  # stopping what a connection already stopped
             self.errors.append(("stop_adv", i, repr(e)))
-        # PDUs of this advertiser may still be on their way to the other controllers
+        # PDUs of this advertiser may still be on their way to the other controllers (and a CONNECT_IND for it on its
+        # way here: the set, and with it its address, is removed after that)
         await asyncio.sleep(2 * self.link_delay + 0.001)
+        if s is not None:
+            try:
+                await s.remove()
+            except Exception as e:
+                self.errors.append(("remove_adv_set", i, repr(e)))
         self.log("advstop", d=i)
 
     async def set_scan(self, i, mode):
@@ -308,10 +374,10 @@ class World:
                     own_address_type=OwnAddressType.PUBLIC if own == "pub" else OwnAddressType.RANDOM, timeout=None)
             except Exception as e:
                 self.errors.append(("connect", i, repr(e)))
-                self.log("ret_err", d=i, tr=tr, a=j, ak=kind)
+                self.log("ret_err", d=i, tr=tr, ctr=tr, a=j, ak=kind)
                 return None
             a, ak = self.who(conn.peer_address)
-            self.log("ret_connect", d=i, h=conn.handle, role="central" if conn.role == hci.Role.CENTRAL else "peripheral",
+            self.log("ret_connect", d=i, ctr=tr, h=conn.handle, role="central" if conn.role == hci.Role.CENTRAL else "peripheral",
                      tr="le" if conn.transport == PhysicalTransport.LE else "br", a=a, ak=ak)
             return conn
 
@@ -331,7 +397,13 @@ class World:
         self.log("send", d=i, h=conn.handle, n=count)
         conn.send_l2cap_pdu(TEST_CID, payload)
 
+    def sco(self, i, conn):
+        """asks for an (e)SCO link on the BR/EDR connection conn of device i"""
+        self.log("sco", d=i, h=conn.handle)
+        return self.spawn(self.dev(i).send_command(hci.HCI_Enhanced_Setup_Synchronous_Connection_Command(connection_handle=conn.handle, **ESCO)), "sco", i)
+
     def disconnect(self, i, conn):
+        """conn: a Connection or a ScoLink"""
         self.log("disconnect", d=i, h=conn.handle)
 
         async def run():
@@ -346,7 +418,7 @@ class World:
 
     async def settle(self, log=True):
         """run well past every advertising interval and delay, then say so"""
-        await asyncio.sleep(10 * ADV_INTERVAL_MS / 1000.0 + 8 * (self.hci_delay + self.link_delay))
+        await asyncio.sleep(10 * ADV_INTERVAL_MS / 1000.0 + 8 * (self.slowest + self.link_delay))
         if log:
             self.log("settle")
 
